@@ -9,7 +9,7 @@ use dlt_core::parse::{dlt_message, DltParseError, ParsedMessage};
 use serde_json::json;
 
 pub fn suffixes_small() -> Vec<Vec<u8>> {
-    vec![vec![], vec![0x44]]
+    vec![vec![], vec![0x44], b"\r\nDLT\x01".to_vec()]
 }
 pub fn suffixes_full() -> Vec<Vec<u8>> {
     let mut t: Vec<Vec<u8>> = vec![vec![]];
@@ -23,6 +23,13 @@ pub fn suffixes_full() -> Vec<Vec<u8>> {
     let next = encode(&msg_with(0x04, 1, Some(ext(MSTP_LOG, 4, "NXT", "MSG")), payload_for(true, Some(MSTP_LOG), 2), Some(storage(9, 9, "NX")))).0;
     t.push(next.clone());
     t.push(next[16..].to_vec());
+    // a following stored message that is NOT adjacent (padding / a stray line in between): the
+    // remainder is exactly the suffix, whatever follows later in it
+    for pad in [&b"\0"[..], b"\r\n", b"XYZ", &[0u8; 17][..]] {
+        let mut v = pad.to_vec();
+        v.extend_from_slice(&next);
+        t.push(v);
+    }
     t.push(vec![0; 65536]);
     t
 }
@@ -106,16 +113,16 @@ pub fn run(ctx: &Ctx) {
         if use_full && stride > 1 {
             // all messages x small suffix set first
             let s2 = &small;
-            ctx.run_family(Family::new(format!("c01.{}.small_suffixes", f.name), f.size * 2, format!("{} x suffixes {{empty, 0x44}}", f.about), move |i, loc| {
-                let m = gen(i / 2);
-                judge(&m, &s2[(i % 2) as usize], loc);
+            ctx.run_family(Family::new(format!("c01.{}.small_suffixes", f.name), f.size * 3, format!("{} x suffixes {{empty, 0x44, CR LF + storage pattern}}", f.about), move |i, loc| {
+                let m = gen(i / 3);
+                judge(&m, &s2[(i % 3) as usize], loc);
             }));
         }
         let size = (f.size / stride) * n_sfx;
         ctx.run_family(Family::new(
             format!("c01.{}", f.name),
             size,
-            format!("{}{} x {} suffixes{}", f.about, if stride > 1 { format!(" (every {}th message)", stride) } else { String::new() }, n_sfx, if use_full { " (empty, all 256 single bytes, 'DLT\\x01', 'DLT', 32xFF, a following message with/without storage header, 64 KiB zeros)" } else { " (empty, 0x44)" }),
+            format!("{}{} x {} suffixes{}", f.about, if stride > 1 { format!(" (every {}th message)", stride) } else { String::new() }, n_sfx, if use_full { " (empty, all 256 single bytes, 'DLT\\x01', 'DLT', 32xFF, a following message with/without storage header, a following stored message behind 1-17 padding bytes, 64 KiB zeros)" } else { " (empty, 0x44)" }),
             move |i, loc| {
                 let m = gen((i / n_sfx) * stride);
                 judge(&m, &sfx[(i % n_sfx) as usize], loc);
